@@ -329,6 +329,7 @@ JOBS["C44"] = [MilliToMinute()]
 import re as _re
 
 from mirsmt.values import EnumV as _EnumV, BoolV as _BoolV, UnitV as _UnitV, RefV as _RefV
+from mirsmt.values import UndefV  # noqa: E402
 from mirsmt import models as _models
 
 
@@ -742,3 +743,207 @@ class VaultLock(Job):
 
 
 JOBS["C10"] = [VaultLock("lock"), VaultLock("unlock")]
+
+
+# ---------------------------------------------------------------------------------------------------------------
+# C10, non-fungible vault: lock_non_fungibles / unlock_non_fungibles over a 3-id universe
+class NfVaultLock(Job):
+    """state per id k in {0,1,2}: liquid flag L_k and lock count C_k (never both liquid and locked); the request is an
+    entry-list set of nq distinct symbolic ids. internal_take_non_fungibles / internal_put are recorded effects on L."""
+    crate = "radix-engine"
+    query_timeout_s = 120
+    max_unroll = 30
+    fresh_capacity = 3
+    case_keys = ("nq",)
+
+    def __init__(self, op):
+        self.op = op
+        self.name = "c10m::non_fungible_vault_%s_non_fungibles" % op
+        self.what = {
+            "lock": "NonFungibleVaultBlueprint::lock_non_fungibles from an arbitrary vault state over 3 ids (each liquid, locked "
+                    "with any count, or absent) for every request of <= 2 ids: it succeeds exactly when every requested id that "
+                    "is not locked yet is liquid; then exactly those ids leave the liquid set, every requested id's lock count "
+                    "grows by one (overlapping proofs share the lock) and no other id changes; a failed lock writes nothing",
+            "unlock": "NonFungibleVaultBlueprint::unlock_non_fungibles of locked ids: each count drops by one and exactly the ids "
+                      "whose last lock is released return to the liquid set; other ids are unchanged; unlocking an id that is "
+                      "not locked panics",
+        }[op]
+        self.cover_labels = ["ok", "id moves between liquid and locked", "count changes without a move"] + \
+            (["rejected: id neither liquid nor locked"] if op == "lock" else [])
+        if op == "unlock":
+            self.allow_panic = r"not locked|expect failed"
+
+    def cases(self, tier):
+        return [{"nq": n} for n in (0, 1, 2)]
+
+    def locate(self, prog):
+        return find_function(prog, "non_fungible/non_fungible_vault.rs", self.op + "_non_fungibles", nparams=2)
+
+    def inputs(self):
+        d = {}
+        pre = []
+        for k in range(3):
+            d["L%d" % k], d["C%d" % k] = z3.Int("L%d" % k), z3.Int("C%d" % k)
+            pre += [d["L%d" % k] >= 0, d["L%d" % k] <= 1, d["C%d" % k] >= 0, d["C%d" % k] <= 1000,
+                    z3.Or(d["L%d" % k] == 0, d["C%d" % k] == 0)]
+        for j in range(self.case["nq"]):
+            d["q%d" % j] = z3.Int("q%d" % j)
+            pre += [d["q%d" % j] >= 0, d["q%d" % j] <= 2]
+            for j2 in range(j):
+                pre.append(d["q%d" % j] != d["q%d" % j2])
+        return d, pre
+
+    @staticmethod
+    def _nfid(t):
+        return StructV("NonFungibleLocalId", [IntV(t, "u64")])
+
+    @property
+    def env_overrides(self):
+        R = _re.compile
+
+        def ok(ret_ty, v):
+            return _EnumV(ret_ty, 0, {0: [v]})
+
+        def members(v):
+            """[(id term, membership Bool)] of an entry-list set or a slot-array set"""
+            if v.kind == "struct" and v.ty.startswith("SymMap"):
+                return [(s_.fields[0].fields[0].term, s_.fields[2].term) for s_ in v.fields if not z3.is_false(s_.fields[2].term)]
+            return [(e.fields[0].term, z3.BoolVal(True)) for e in v.fields]
+
+        def m_take(interp, path, args, ret_ty, callee):
+            job = path.frames["job"]
+            ms = members(_models.deref(interp, path, args[0]))
+            # every taken id must be liquid (else MissingId)
+            missing = z3.Or([z3.And(m, z3.Or([z3.And(t == k, job["L%d" % k].term == 0) for k in range(3)])) for t, m in ms]) \
+                if ms else z3.BoolVal(False)
+            outs = []
+            for p, tag in interp.fork(path, [(z3.Not(missing), "ok"), (missing, "err")]):
+                if tag == "err":
+                    outs.append(_models.Outcome(p, "ret", _EnumV(ret_ty, 1, {1: [_EnumV("RuntimeError", 0, {0: [UndefV()]})]})))
+                    continue
+                pj = p.frames["job"]
+                for k in range(3):
+                    taken = z3.Or([z3.And(m, t == k) for t, m in ms]) if ms else z3.BoolVal(False)
+                    pj["L%d" % k] = IntV(z3.If(taken, 0, pj["L%d" % k].term), "u8")
+                pj["takes"] = IntV(pj["takes"].term + 1, "u32")
+                outs.append(_models.Outcome(p, "ret", ok(ret_ty, StructV("LiquidNonFungibleResource", [_models.deref(interp, p, args[0])]))))
+            return outs
+
+        def m_put(interp, path, args, ret_ty, callee):
+            job = path.frames["job"]
+            res = args[0]
+            ms = members(res.fields[0])
+            for k in range(3):
+                back = z3.Or([z3.And(m, t == k) for t, m in ms]) if ms else z3.BoolVal(False)
+                job["L%d" % k] = IntV(z3.If(back, 1, job["L%d" % k].term), "u8")
+            job["puts"] = IntV(job["puts"].term + 1, "u32")
+            return ok(ret_ty, _UnitV())
+        return [(R(r"NonFungibleVaultBlueprint::internal_take_non_fungibles::<"), m_take),
+                (R(r"NonFungibleVaultBlueprint::internal_put::<"), m_put),
+                (R(r"LiquidNonFungibleResource::new$"), lambda i, p, a_, r, c: StructV("LiquidNonFungibleResource", [a_[0]])),
+                (R(r"^<NonFungibleLocalId as Clone>::clone$"), _models.m_clone)] + \
+            field_store_overrides(self, {"LockedResourceFieldPayload": "locked"})
+
+    def setup_path(self, path, inp):
+        d = self._d = {k: lit(v) for k, v in inp.items()}
+        slots = [StructV("Slot", [self._nfid(k), IntV(d["C%d" % k], "usize"), _BoolV(d["C%d" % k] > 0)]) for k in range(3)]
+        job = {"api": StructV("Api", []), "takes": IntV(0, "u32"), "puts": IntV(0, "u32"),
+               "locked": StructV("LockedNonFungibleResource", [StructV("SymMap<NonFungibleLocalId, usize>", slots)])}
+        for k in range(3):
+            job["L%d" % k] = IntV(d["L%d" % k], "u8")
+        path.frames["job"] = job
+
+    def args(self, inp):
+        d = {k: lit(v) for k, v in inp.items()}
+        ids = StructV("IndexSet<NonFungibleLocalId>", [self._nfid(d["q%d" % j]) for j in range(self.case["nq"])])
+        api = _RefV("&mut Y", "job", "api", ())
+        if self.op == "lock":
+            from mir_jobs import const_ref
+            return [const_ref("&IndexSet<NonFungibleLocalId>", ids), api]
+        return [ids, api]
+
+    def extract_outcome(self, o):
+        job = o.path.frames["job"]
+        m = job["locked"].fields[0]
+        res = {"ok": o.value.discr == 0}
+        for k in range(3):
+            cnt = z3.IntVal(0)
+            for s_ in m.fields:
+                if z3.is_false(s_.fields[2].term) or s_.fields[0].kind != "struct":
+                    continue
+                cnt = cnt + z3.If(z3.And(s_.fields[2].term, s_.fields[0].fields[0].term == k), s_.fields[1].term, 0)
+            res["C%d" % k] = cnt
+            res["L%d" % k] = job["L%d" % k].term
+        return res
+
+    def native(self, nat, vals):
+        toks = [self.op]
+        for k in range(3):
+            toks += [vals["L%d" % k], vals["C%d" % k]]
+        Q = [vals["q%d" % j] for j in range(self.case["nq"])]
+        t = nat.call("nf_vault_lock", *(toks + [len(Q)] + Q)).split()
+        if t[0] == "panic":
+            return {"panic": True, "msg": " ".join(t[1:])}
+        res = {"panic": False, "ok": t[0] == "ok"}
+        for k in range(3):
+            res["L%d" % k], res["C%d" % k] = int(t[1 + 2 * k]), int(t[2 + 2 * k])
+        return res
+
+    def post(self, inp, res):
+        if "L0" not in res:
+            return []           # an allowed panic (unlocking an id that is not locked) has no post-state
+        d = {k: lit(v) for k, v in inp.items()}
+        r = {k: lit(v) for k, v in res.items() if not isinstance(v, str)}
+        Q = [d["q%d" % j] for j in range(self.case["nq"])]
+        asked = lambda k: z3.Or([q == k for q in Q]) if Q else z3.BoolVal(False)
+        same = z3.And([z3.And(r["L%d" % k] == d["L%d" % k], r["C%d" % k] == d["C%d" % k]) for k in range(3)])
+        if self.op == "lock":
+            possible = z3.And([z3.Implies(asked(k), z3.Or(d["C%d" % k] > 0, d["L%d" % k] == 1)) for k in range(3)])
+            step = z3.And([z3.If(asked(k), z3.And(r["C%d" % k] == d["C%d" % k] + 1, r["L%d" % k] == 0),
+                                 z3.And(r["C%d" % k] == d["C%d" % k], r["L%d" % k] == d["L%d" % k])) for k in range(3)])
+            return [("succeeds exactly when every requested id is liquid or already locked", r["ok"] == possible),
+                    ("requested ids leave the liquid set, their count grows by one, nothing else changes", z3.Implies(r["ok"], step)),
+                    ("a failed lock leaves the lock table as it was", z3.Implies(z3.Not(r["ok"]),
+                                                                                 z3.And([r["C%d" % k] == d["C%d" % k] for k in range(3)])))]
+        step = z3.And([z3.If(asked(k), z3.And(r["C%d" % k] == d["C%d" % k] - 1,
+                                              r["L%d" % k] == z3.If(d["C%d" % k] == 1, 1, d["L%d" % k])),
+                             z3.And(r["C%d" % k] == d["C%d" % k], r["L%d" % k] == d["L%d" % k])) for k in range(3)])
+        return [("unlocking locked ids always succeeds", r["ok"]),
+                ("each count drops by one; exactly the ids released for the last time return to the liquid set", step)]
+
+    def covers(self, inp, res):
+        if "L0" not in res:
+            return []
+        d = {k: lit(v) for k, v in inp.items()}
+        ok = lit(res["ok"])
+        moved = z3.Or([lit(res["L%d" % k]) != d["L%d" % k] for k in range(3)])
+        counted = z3.Or([z3.And(lit(res["C%d" % k]) != d["C%d" % k], lit(res["L%d" % k]) == d["L%d" % k]) for k in range(3)])
+        out = [("ok", ok), ("id moves between liquid and locked", z3.And(ok, moved)), ("count changes without a move", z3.And(ok, counted))]
+        if self.op == "lock":
+            out.append(("rejected: id neither liquid nor locked", z3.Not(ok)))
+        return out
+
+    def vectors(self, rng):
+        out = []
+        for _ in range(40):
+            nq = rng.randrange(3)
+            d = {"nq": nq}
+            for k in range(3):
+                kind = rng.randrange(3)
+                d["L%d" % k] = 1 if kind == 0 else 0
+                d["C%d" % k] = rng.choice([1, 2, 5]) if kind == 1 else 0
+            qs = rng.sample(range(3), nq)
+            if self.op == "unlock":
+                locked = [k for k in range(3) if d["C%d" % k] > 0]
+                if len(locked) < nq:
+                    for k in qs:
+                        d["L%d" % k], d["C%d" % k] = 0, rng.choice([1, 2])
+                else:
+                    qs = rng.sample(locked, nq)
+            for j, q in enumerate(qs):
+                d["q%d" % j] = q
+            out.append(d)
+        return out
+
+
+JOBS["C10"] += [NfVaultLock("lock"), NfVaultLock("unlock")]
